@@ -655,6 +655,52 @@ def scale_check(ctx: C.Ctx, case, batch, ks) -> Optional[C.Failure]:
     return None
 
 
+def gen_blocks(rng):
+    """A page of separate text blocks: a column of wide lines (each its own box) whose groups cover a large part
+    of the page, and a few small boxes beside it with pairwise distinct distances.  Analysed at scale 1 and at
+    scales where those groups cover thousands of cells of the 50-unit grid (the state of the two planes - objects
+    added, removed again, searched for - then differs a lot from the unscaled run)."""
+    bf = rng.choice([F(1, 2), F(1, 2), F(0), F(-1, 2), F(3, 4)])
+    la = dict(LA0, boxes_flow=S(bf), line_margin="1/4", char_margin="2")
+    items = []
+    cid = 0
+    h, w = F(10), F(6)
+    nwide = rng.randint(2, 4)
+    y = F(280)
+    wide_chars = rng.randint(20, 34)
+    x0 = F(10) + rng.randint(0, 20)
+    gaps = rng.sample([F(6), F(8), F(11), F(15), F(19)], nwide)
+    for r in range(nwide):
+        for k in range(wide_chars - 2 * r):
+            cid += 1
+            items.append(["c", cid, S(x0 + k * w), S(y), S(x0 + (k + 1) * w), S(y + h), "w"])
+        y -= h + gaps[r]
+    # small boxes to the right / below, at distinct distances
+    nsmall = rng.randint(2, 4)
+    xs = x0 + wide_chars * w
+    for r in range(nsmall):
+        bx = xs + rng.choice([F(9), F(14), F(22), F(31), F(45)]) + 13 * r
+        by = F(285) - rng.choice([F(0), F(17), F(41), F(66), F(95)]) - 7 * r
+        for k in range(rng.randint(1, 3)):
+            cid += 1
+            items.append(["c", cid, S(bx + k * w), S(by), S(bx + (k + 1) * w), S(by + h), "s"])
+    return {"bbox": ["0", "0", "420", "320"], "la": la, "items": items}
+
+
+def run_big_scale(ctx: C.Ctx, batch) -> None:
+    rng = ctx.rng
+    for i in range(ctx.n(25, 400)):
+        if not ctx.time_left():
+            break
+        case = gen_blocks(rng)
+        ks = [rng.choice([5, 6]), 7] if ctx.tier == "quick" else [4, 5, 6, 7, 8]
+        ctx.case(("blocks", json.dumps(case, sort_keys=True)), True, branch="gen:scale:blocks")
+        f = scale_check(ctx, case, batch, ks)
+        if f is not None:
+            f.tags["blocks"] = True
+            report(ctx, f)
+
+
 def run_scale(ctx: C.Ctx, batch) -> None:
     rng = ctx.rng
     n = ctx.n(120, 3000)
@@ -1019,6 +1065,7 @@ def run(ctx: C.Ctx) -> None:
     run_columns(ctx, batch)
     run_components(ctx)
     run_documents(ctx)
+    run_big_scale(ctx, batch)
     run_scale(ctx, batch)
     batch.flush()
     kinds = ctx.extra.pop("_c09_kinds", None)
